@@ -91,6 +91,13 @@ func newOAuth2IntrospectionAuthenticator(
 		return nil, err
 	}
 
+	if conf.Assertions.ValidityLeeway < 0 {
+		// introspection responses are cached until shortly before the token expires. That is
+		// only sound if tokens are not considered to be expired before their actual expiry
+		return nil, errorchain.NewWithMessage(heimdall.ErrConfiguration,
+			"'validity_leeway' must not be negative")
+	}
+
 	if conf.IntrospectionEndpoint != nil && len(conf.Assertions.TrustedIssuers) == 0 {
 		return nil, errorchain.NewWithMessage(heimdall.ErrConfiguration,
 			"'issuers' is a required field if introspection endpoint is used")
@@ -203,6 +210,11 @@ func (a *oauth2IntrospectionAuthenticator) WithConfig(rawConfig map[string]any) 
 	var conf Config
 	if err := decodeConfig(nil, AuthenticatorOAuth2Introspection, rawConfig, &conf); err != nil {
 		return nil, err
+	}
+
+	if conf.Assertions.ValidityLeeway < 0 {
+		return nil, errorchain.NewWithMessage(heimdall.ErrConfiguration,
+			"'validity_leeway' must not be negative")
 	}
 
 	return &oauth2IntrospectionAuthenticator{
